@@ -227,7 +227,60 @@ def t_condition_extract(func):
     return counter[0] > 0
 
 
+def t_arg_extract(func):
+    '''<stmt with a call argument that is itself a call / attribute chain>
+    ->  arg_tw<k> = <argument>; <stmt using arg_tw<k>>   for simple
+    statements (expression statements, assignments, returns); the FIRST
+    positional argument of the outermost call only (evaluation order is
+    unchanged: it is the first thing the statement evaluates after the
+    callee expression, which must be a plain dotted name).'''
+    counter = [0]
+
+    def plain(expr):
+        return isinstance(expr, ast.Name) or (
+            isinstance(expr, ast.Attribute) and plain(expr.value))
+
+    def rewrite(body):
+        out = []
+        for stmt in body:
+            for fld in ('body', 'orelse', 'finalbody'):
+                sub = getattr(stmt, fld, None)
+                if isinstance(sub, list) and sub and isinstance(
+                        sub[0], ast.stmt) and not isinstance(
+                            stmt, (ast.FunctionDef, ast.AsyncFunctionDef,
+                                   ast.ClassDef)):
+                    setattr(stmt, fld, rewrite(sub))
+            for hdl in getattr(stmt, 'handlers', []) or []:
+                hdl.body = rewrite(hdl.body)
+            call = None
+            if isinstance(stmt, ast.Expr) and isinstance(stmt.value,
+                                                         ast.Call):
+                call = stmt.value
+            elif isinstance(stmt, (ast.Assign, ast.Return)) and isinstance(
+                    stmt.value, ast.Call):
+                call = stmt.value
+            if call is not None and plain(call.func) and call.args and \
+                    isinstance(call.args[0], (ast.Call, ast.BinOp,
+                                              ast.Subscript)) and not any(
+                        isinstance(n, (ast.NamedExpr, ast.Yield, ast.Await,
+                                       ast.Starred, ast.Lambda))
+                        for n in ast.walk(call.args[0])) and not (
+                            isinstance(call.func, ast.Name) and
+                            call.func.id in ('super', 'isinstance', 'len')):
+                counter[0] += 1
+                name = f'arg_tw{counter[0]}'
+                out.append(ast.Assign(
+                    targets=[ast.Name(id=name, ctx=ast.Store())],
+                    value=call.args[0], lineno=stmt.lineno))
+                call.args[0] = ast.Name(id=name, ctx=ast.Load())
+            out.append(stmt)
+        return out
+    func.body = rewrite(func.body)
+    return counter[0] > 0
+
+
 TRANSFORMS = {
+    'arg-extract': t_arg_extract,
     'condition-extract': t_condition_extract,
     'return-extract': t_return_extract,
     'de-morgan': t_demorgan,
